@@ -65,6 +65,7 @@ def run(snap, tier, seed, t0, replay):
                 params["twin_basetype"] = True
             if k % 5 == 4:
                 params["third_basetype"] = True
+                params["leaf_per_basetype"] = True
             params["explicit_root"] = (k % 6 != 5)
             if k % 4 == 2:
                 params["keys"]["sequence"], params["keys"]["task"] = "s\u00e9quence", "t\u00e2che"      # non-ASCII key names
@@ -85,6 +86,7 @@ def run(snap, tier, seed, t0, replay):
               "non-idempotent mapping configurations": (sum(1 for p in params_list if p["mapping_style"] == "swap"), 1 if nconf >= 6 else 0),
               "configurations with non-ASCII key names": (sum(1 for p in params_list if not p["keys"]["sequence"].isascii()), 1 if nconf >= 6 else 0),
               "configurations whose secondary path configurations derive from the main module": (sum(1 for p in params_list if p.get("derived_configs") and p.get("third_config_own_mapping")), 1 if nconf >= 6 else 0),
+              "configurations with a basetype that names its own leaf key": (sum(1 for p in params_list if p.get("third_basetype") and p.get("leaf_per_basetype")), 1 if nconf >= 6 else 0),
               "partial mapping table configurations": (sum(1 for p in params_list if p["mapping_style"] == "partial"), 1 if nconf >= 6 else 0)}
     for sub in SUBS:
         floors["evaluations of %s" % sub] = (c.get("evals:" + sub, 0), nconf * (100 if sub != "order" else 2))
